@@ -310,6 +310,7 @@ FAM = {
                  intr={"vdupq_n_u8": ("v128set1", "b"), "vandq_u8": ("v128and", "vv"), "veorq_u8": ("v128xor", "vv"),
                        "vqtbl1q_u8": ("vqtbl1q", "vv"), "vshrq_n_u8": ("vshrq4", "v4")}),
     "NoSimd": dict(file="src/engine/engine_nosimd.rs", width=None, vec=None, load=None, store=None, ptr_unit=None, intr={}),
+    "Naive": dict(file="src/engine/engine_naive.rs", width=None, vec=None, load=None, store=None, ptr_unit=None, intr={}),
     "Utils": dict(file="src/engine/utils.rs", width=None, vec=None, load=None, store=None, ptr_unit=None, intr={}),
 }
 
@@ -327,6 +328,7 @@ WANTED = {
     "Utils": [("^$", "xor")],
     "NoSimd": [("impl Engine for NoSimd$", "mul"), ("impl NoSimd$", "mul_add"), ("impl NoSimd$", "fft_butterfly_partial"),
                ("impl NoSimd$", "ifft_butterfly_partial")],
+    "Naive": [("impl Engine for Naive$", "mul"), ("impl Naive$", "mul_add")],
 }
 
 
@@ -378,7 +380,7 @@ class Sig:
         kinds = [k for (_, k, _) in self.params]
         self.lut = None
         if "lut" in kinds or (self.has_self and "logm" in kinds):
-            self.lut = "lut16" if fam == "NoSimd" else "lut128"
+            self.lut = "lut16" if fam == "NoSimd" else "mulf" if fam == "Naive" else "lut128"
         self.leanname = f"{fam}_{name}"
 
     def lean_lut_params(self):
@@ -386,10 +388,12 @@ class Sig:
             return "(lutLoF lutHiF : Nat → V128) "
         if self.lut == "lut16":
             return "(lut16F : Nat → Nat → Sym) "
+        if self.lut == "mulf":
+            return "(mulF : Sym → Sym) "
         return ""
 
     def lean_lut_args(self):
-        return {"lut128": "lutLoF lutHiF ", "lut16": "lut16F ", None: ""}[self.lut]
+        return {"lut128": "lutLoF lutHiF ", "lut16": "lut16F ", "mulf": "mulF ", None: ""}[self.lut]
 
 
 class Fn:
@@ -547,6 +551,20 @@ class Fn:
                 if k != "u8":
                     raise CannotTranslate("usize::from of a non-u8")
                 return ("nat", f"{self.par(v)}.toNat")
+            if path in (["GfElement", "from"], ["u16", "from"]) and len(e[2]) == 1:
+                k, v = self.ev(e[2][0])
+                if k != "u8":
+                    raise CannotTranslate("GfElement::from of a non-u8")
+                return ("u16", f"{self.par(v)}.setWidth 16")
+            if path == ["tables", "mul"] and len(e[2]) == 4 and self.sig.lut == "mulf":
+                if e[2][1] != ("var", "log_m") or e[2][2] != ("field", ("var", "self"), "exp") or e[2][3] != ("field", ("var", "self"), "log"):
+                    raise CannotTranslate("tables::mul with other than (x, log_m, self.exp, self.log)")
+                k, v = self.ev(e[2][0])
+                if k != "u16":
+                    raise CannotTranslate("tables::mul of a non-u16")
+                return ("u16", f"mulF {self.par(v)}")
+            if path == ["std", "iter", "zip"]:
+                return ("zip", [self.iter_of(x) for x in e[2]])
             if path == ["LutAvx2", "from"] and len(e[2]) == 1 and self.ev(e[2][0])[0] == "lut":
                 return ("lutavx", "(Avx2_from lutLoF lutHiF)")
             if path[0] == "Self" and len(path) == 2:
@@ -579,6 +597,8 @@ class Fn:
                 i = self.nat(idx)
                 pos = i if off == 0 else f"({i} + {off})"
                 return ("u8", f"{self.blocks[blk]['cur']}.toArray.getD {pos} 0#8")
+            if base[0] == "var" and self.env.get(base[1], ("",))[0] == "block":
+                return ("u8", f"{self.blocks[base[1]]['cur']}.toArray.getD {self.nat(idx)} 0#8")
             raise CannotTranslate(f"{self.sig.leanname}: index expression `{e}`")
         if e[0] == "bin":
             op = e[1]
@@ -588,6 +608,8 @@ class Fn:
                 bw = {"u8": 8, "u16": 16}[ka]
                 bb = f"{b}#{bw}" if kb == "int" else self.par(b)
                 return (ka, f"{self.par(a)} {'&&&' if op == '&' else '^^^' if op == '^' else '|||'} {bb}")
+            if op == "<<" and ka == "u16" and kb == "int":
+                return (ka, f"{self.par(a)} <<< {b}")
             if op == ">>" and ka in ("u8", "u16") and kb == "int":
                 return (ka, f"{self.par(a)} >>> {b}")
             raise CannotTranslate(f"{self.sig.leanname}: `{ka} {op} {kb}`")
@@ -624,6 +646,8 @@ class Fn:
             return self.env[e[1]][1]
         if e[0] == "int":
             return str(e[1])
+        if e[0] == "bin" and e[1] == "+" and e[3][0] == "int":
+            return f"({self.nat(e[2])} + {e[3][1]})"
         raise CannotTranslate(f"{self.sig.leanname}: index `{e}`")
 
     def load(self, blk, off, w):
@@ -742,8 +766,8 @@ class Fn:
             return
         if kind == "assign":
             lhs, e = s[1], s[2]
-            if lhs[0] == "index" and lhs[1][0] == "var" and self.env.get(lhs[1][1], ("",))[0] == "view":
-                _, blk, off = self.env[lhs[1][1]]
+            if lhs[0] == "index" and lhs[1][0] == "var" and self.byte_base(lhs[1][1]):
+                blk, off = self.byte_base(lhs[1][1])
                 k, v = self.ev(e)
                 if k != "u8":
                     raise CannotTranslate("byte store of a non-u8")
@@ -761,8 +785,8 @@ class Fn:
             lhs, op, e = s[1], s[2], s[3]
             if op != "^":
                 raise CannotTranslate(f"`{op}=`")
-            if lhs[0] == "index" and lhs[1][0] == "var" and self.env.get(lhs[1][1], ("",))[0] == "view":
-                _, blk, off = self.env[lhs[1][1]]
+            if lhs[0] == "index" and lhs[1][0] == "var" and self.byte_base(lhs[1][1]):
+                blk, off = self.byte_base(lhs[1][1])
                 k, v = self.ev(e)
                 if k != "u8":
                     raise CannotTranslate("byte store of a non-u8")
@@ -793,6 +817,14 @@ class Fn:
             self.tail = self.ev(s[1])
             return
         raise CannotTranslate(f"statement `{kind}`")
+
+    def byte_base(self, name):
+        v = self.env.get(name, ("",))
+        if v[0] == "view":
+            return v[1], v[2]
+        if v[0] == "block":
+            return name, 0
+        return None
 
     def setbyte(self, blk, off, i, v):
         pos = i if off == 0 else f"({i} + {off})"
@@ -918,8 +950,8 @@ def for_range(fn, s):
     # find which block the body writes
     written = set()
     for st in body:
-        if st[0] in ("assign", "opassign") and st[1][0] == "index" and st[1][1][0] == "var" and fn.env.get(st[1][1][1], ("",))[0] == "view":
-            written.add(fn.env[st[1][1][1]][1])
+        if st[0] in ("assign", "opassign") and st[1][0] == "index" and st[1][1][0] == "var" and fn.byte_base(st[1][1][1]):
+            written.add(fn.byte_base(st[1][1][1])[0])
     if len(written) != 1:
         raise CannotTranslate("byte loop writing to other than exactly one chunk")
     blk = written.pop()
@@ -934,7 +966,7 @@ def for_range(fn, s):
         if k != blk and v["cur"] != fn.blocks[k]["cur"]:
             raise CannotTranslate("second chunk modified in a byte loop")
     r = fn.fresh(blk)
-    fn.lines.append(f"let {r} := (List.range {hi}).foldl (fun {blk} {i} =>\n      " + "\n      ".join(sub.lines + [sub.blocks[blk]["cur"]]) + f") {start}")
+    fn.lines.append(f"let {r} := (List.range {hi}).foldl (fun ({blk} : Block) ({i} : Nat) =>\n      " + "\n      ".join(sub.lines + [sub.blocks[blk]["cur"]]) + f") {start}")
     fn.block_set(blk, r)
 
 
@@ -958,7 +990,7 @@ class Translator:
         self.lutavx_fields = []
 
     def run(self):
-        order = ["Utils", "Ssse3", "Avx2", "Neon", "NoSimd"]
+        order = ["Utils", "Ssse3", "Avx2", "Neon", "NoSimd", "Naive"]
         for fam in order:
             src = open(f"{self.repo}/{FAM[fam]['file']}").read()
             toks = tokenize(src)
